@@ -8,37 +8,35 @@ From Coq Require Import ZArith.
 (* Full strength, every input: for EVERY annotation t over the grammar, EVERY oracle
    (stdlib behaviour), EVERY input value j whatsoever (no well-typedness hypothesis;
    outside the modelled input fragment the model answers Err, never a value), whatever
-   the loader returns is a value of the annotated type - up to exactly three leniencies
-   (constructors LNoneAny, LUnionNone, LTupleShort of conforms_g true):
-   a field annotated `None` keeps its input, a Union without None passes None through,
-   a fixed-arity tuple may come back shorter when the missing members could be None. *)
+   the loader returns is a value of the annotated type - up to exactly two leniencies
+   (constructors LNoneAny, LTupleShort of conforms_g true):
+   a field annotated `None` keeps its input, a fixed-arity tuple may come back shorter when
+   the missing members could be None.  (A third one, a Union without None passing None
+   through, finding F44, was repaired in /repo f6e8c59 and is gone from the relation.) *)
 Theorem C05_v0_conforms_lax :
   forall orc cfg t j v, wf_ty_g true t -> load orc cfg t j = Ok v -> conforms_g true t v.
 Proof. exact load_conforms_lax. Qed.
 Print Assumptions C05_v0_conforms_lax.
 
 (* The property as stated (strict conformance) holds on the region safe_ty:
-   no `None` annotation, every Union has a None member, no fixed-arity tuple member may be None.
-   Missing for the full statement: exactly the three refuted cases below. *)
+   no `None` annotation on its own, no fixed-arity tuple member may be None.
+   Missing for the full statement: exactly the two refuted cases below. *)
 Theorem C05_v0_partial :
   forall orc cfg t j v, wf_ty t -> safe_ty t = true -> load orc cfg t j = Ok v -> conforms t v.
 Proof. exact load_conforms_strict. Qed.
 Print Assumptions C05_v0_partial.
 
 (* Outside that region the faithful model violates the property (witnesses replayed on the
-   implementation by harness/props/c05.py; findings F44, F45, F46). *)
+   implementation by harness/props/c05.py; findings F45, F46). *)
 Definition no_orc : pstr -> pv -> ores := fun _ _ => OMiss.
 Definition cfg0 := mkL (S "__tag__").
 
-Theorem C05_refuted_union_none :
-  exists t j v, wf_ty t /\ load no_orc cfg0 t j = Ok v /\ ~ conforms t v.
-Proof.
-  exists (TUnion [TInt; TStr]), VNone, VNone. split; [|split; [reflexivity|]].
-  - constructor. repeat constructor.
-  - intros H. inversion H as [| | | | | | | | | | | | | | |? t' ? Hin Hc| | | | | | |]; subst; try discriminate.
-    destruct Hin as [<-|[<-|[]]]; inversion Hc; discriminate.
-Qed.
-Print Assumptions C05_refuted_union_none.
+(* Regression witness of the repaired finding F44: null at a Union without None is rejected,
+   and still accepted when None is a member. *)
+Example C05_union_none_rejected :
+  load no_orc cfg0 (TUnion [TInt; TStr]) VNone = Err (ERaise (S "ParseError")) /\
+  load no_orc cfg0 (TUnion [TInt; TNone; TStr]) VNone = Ok VNone.
+Proof. split; reflexivity. Qed.
 
 Theorem C05_refuted_tuple_short :
   exists t j v, wf_ty t /\ load no_orc cfg0 t j = Ok v /\ ~ conforms t v.
@@ -46,7 +44,7 @@ Proof.
   exists (TTuple [TInt; TOptional TStr]), (VSeq SList true [VInt 1]), (VSeq STuple false [VInt 1]).
   split; [|split; [reflexivity|]].
   - constructor. repeat constructor.
-  - intros H. inversion H as [| | | | | | | | | |? ? ? H2| | | | | | | | | | | |]; subst; try discriminate.
+  - intros H. inversion H as [| | | | | | | | | |? ? ? H2| | | | | | | | | | |]; subst; try discriminate.
     inversion H2 as [|? ? ? ? _ H3]; subst. inversion H3.
 Qed.
 Print Assumptions C05_refuted_tuple_short.
